@@ -301,6 +301,16 @@ impl MarkdownEventsReader {
                 link_type,
                 id: _,
             } => {
+                // the parser reports a wiki link one byte short: the second closing bracket
+                // belongs to the link just like the ")" of "[text](url)" does
+                let range = match link_type {
+                    LinkType::WikiLink { .. }
+                        if self.content.as_bytes().get(range.end) == Some(&b']') =>
+                    {
+                        range.start..range.end + 1
+                    }
+                    _ => range,
+                };
                 self.push_inline(
                     DocumentInline::Link(Link {
                         inlines: vec![],
